@@ -100,6 +100,9 @@ type vPipeCase struct {
 	Nsamp    int         `json:"nsamp"`
 	F0       int64       `json:"f0"`
 	PeriodNs int64       `json:"period_ns"`
+	// RateHz, when set: the source's true sample rate, whose period is not a whole number of ns; PeriodNs is then the rounded
+	// period that real sources put into the blocks (round(1e9/RateHz))
+	RateHz float64 `json:"rate_hz,omitempty"`
 	Blocks   []int       `json:"blocks"`
 	JitterNs []int64     `json:"jitter_ns,omitempty"`
 	Streams  []vStream   `json:"streams"`
@@ -219,7 +222,7 @@ var vPipeT0 = time.Date(2024, 3, 1, 12, 0, 0, 0, time.UTC)
 
 func (c *vPipeCase) valid() bool {
 	if c.Nchan < 1 || c.Nchan > 8 || len(c.Streams) != c.Nchan || c.Npre < 3 || c.Nsamp < c.Npre+1 || c.Nsamp > 512 ||
-		c.PeriodNs < 1 || len(c.Blocks) == 0 || c.F0 < 0 {
+		c.PeriodNs < 1 || len(c.Blocks) == 0 || c.F0 < 0 || (c.RateHz != 0 && (c.RateHz <= 0 || int64(math.Round(1e9/c.RateHz)) != c.PeriodNs)) {
 		return false
 	}
 	total := 0
@@ -296,6 +299,9 @@ func vRunPipe(c *vPipeCase, observe func(tr *vTrace, k int, recs []*DataRecord) 
 		ds = &ls.AnySource
 	}
 	ds.sampleRate = 1e9 / float64(c.PeriodNs)
+	if c.RateHz > 0 {
+		ds.sampleRate = c.RateHz
+	}
 	ds.samplePeriod = time.Duration(c.PeriodNs)
 	ds.voltsPerArb = make([]float32, c.Nchan) // per-channel scale as a hardware source would set it
 	for ch := range ds.voltsPerArb {
@@ -558,8 +564,12 @@ func vCheckExcerpt(c *vPipeCase, tr *vTrace, k int, r *DataRecord) *vVerdict {
 		f := vFailf("record-label", "block %d ch %d: voltsPerArb %v, channel has %v", k, ch, r.voltsPerArb, float32(ch+1)*0.25)
 		return &f
 	}
-	if r.sampPeriod != float32(1.0/(1e9/float64(c.PeriodNs))) {
-		f := vFailf("record-label", "block %d ch %d: sample period %v, want %v", k, ch, r.sampPeriod, float32(float64(c.PeriodNs)/1e9))
+	wantPeriod := float32(1.0 / (1e9 / float64(c.PeriodNs)))
+	if c.RateHz > 0 {
+		wantPeriod = float32(1.0 / c.RateHz) // the record states the sample period, not the period rounded to whole nanoseconds
+	}
+	if r.sampPeriod != wantPeriod {
+		f := vFailf("record-label", "block %d ch %d: sample period %v, want %v", k, ch, r.sampPeriod, wantPeriod)
 		return &f
 	}
 	return nil
